@@ -8,6 +8,7 @@ CONSTANTS
   SpellNames = {}
   EmitTrees = FALSE
   Alpha = "S"
+  Contexts = {}
   MaxLen = 3
   TailLen = 0
   DeepReps = {}
